@@ -157,7 +157,10 @@ class World:
             n.inst = "model"
             return self.log(step, "ok")
         K = n.lib().classes[n.cls]
-        P = n.lparams()
+        try:
+            P = n.lparams()
+        except Exception as ex:          # the library refused to build this parameter set
+            return self.log(step, "exc:params:" + type(ex).__name__)
         if n.cls == "S":
             r = self._call(n, "init", lambda: K(n.pw, idSymmetric=n.ids, params=P, entropy_f=n.entropy))
         else:
@@ -313,7 +316,10 @@ class World:
             n.model_out = spec.out
             return self.log(step, "inst", dg(spec.out))
         K = n.lib().classes[cls]
-        P = n.lparams(pset)
+        try:
+            P = n.lparams(pset)
+        except Exception as ex:
+            return self.log(step, "exc:params:" + type(ex).__name__)
         r = self._call(n, "from_serialized", lambda: K.from_serialized(n.slot, params=P))
         if r[0] == "exc":
             return self.log(step, "exc:" + r[1])
